@@ -94,7 +94,7 @@ Section Block.
     destruct (match ln with Arg n => n <? 4 | Indef => false end); [discriminate|].
     apply bind_ok in E as [[hdr r1] [E1 E]]. apply bind_ok in E as [[bodies r2] [E2 E]].
     apply bind_ok in E as [[ws r3] [E3 E]]. apply bind_ok in E as [[ax r4] [E4 E]].
-    apply bind_ok in E as [present [_ E]]. apply bind_ok in E as [r5 [E5 E]]. apply bind_ok in E as [r6 [E6 E]].
+    apply bind_ok in E as [present [_ E]]. apply bind_ok in E as [[ivn r5] [E5 E]]. apply bind_ok in E as [r6 [E6 E]].
     injection E as <- <-. cbn [fb_header fb_bodies fb_hash].
     pose proof (rd_head_suffix 4 _ _ _ E0) as [hd [-> _]].
     apply raw_item_self in E1 as [-> Hwf].
@@ -103,9 +103,9 @@ Section Block.
     assert (S5 : exists t5, r4 = t5 ++ r5).
     { destruct present.
       - destruct (match ln with Arg n => negb (n =? 5) | Indef => false end); [discriminate|].
-        apply bind_ok in E5 as [[iv r'] [E5 E5']]. injection E5' as <-. apply raw_array_self in E5 as [-> _].
+        apply bind_ok in E5 as [[iv r'] [E5 E5']]. injection E5' as _ <-. apply raw_array_self in E5 as [-> _].
         exists iv. reflexivity.
-      - injection E5 as <-. exists []. reflexivity. }
+      - injection E5 as _ <-. exists []. reflexivity. }
     destruct S5 as [t5 ->]. apply close_len_shape in E6 as [c6 [-> _]].
     exists hd, bhd, cl, (ws ++ ax ++ t5 ++ c6). rewrite <- !app_assoc.
     split; [reflexivity|]. split; [exact Hwf|]. split; [exact Hcl|]. split; [exact Hall|].
@@ -174,7 +174,7 @@ Section Block.
     { destruct present; [|discriminate].
       destruct (match ln with Arg n => negb (n =? 5) | Indef => false end); [discriminate|].
       apply bind_no_oof; [apply raw_array_noof|]. intros [iv r] _. discriminate. }
-    intros r5 _. apply bind_no_oof; [apply close_len_noof|]. intros r6 _. discriminate.
+    intros [ivn r5] _. apply bind_no_oof; [apply close_len_noof|]. intros r6 _. discriminate.
   Qed.
   Theorem decode_versioned_block_noof : noof (decode_versioned_block H).
   Proof.
